@@ -323,16 +323,17 @@ func runC16(w *World, r *Report) {
 				ok = true
 			}
 		})
-		rnd := len(f.calls("crypto/rand.Read")) == 1
+		randCalls := deepCalls(f.fn, byName("crypto/rand.Read"), deepDepth)
+		rnd := len(randCalls) == 1
 		r.check(ok && rnd, "challenge-issue", "dataprovider.Cache.ProvideData", w.Pos(f.fn.Pos()), "challenge = crypto/rand bytes stored under the address", fmt.Sprintf("stored-under-address=%v random=%v", ok, rnd))
 		// every record written by ProvideData carries bytes drawn in THIS call: an old challenge is never
 		// re-stored (with a new deadline), so a challenge lives for one longevity period at most
 		var randBufs []ssa.Value
-		for _, c := range f.calls("crypto/rand.Read") {
-			randBufs = append(randBufs, origins(c.Common().Args[0])...)
+		for _, d := range randCalls {
+			randBufs = append(randBufs, origins(d.c.Common().Args[0])...)
 		}
 		fromRand := func(v ssa.Value) bool {
-			for _, o := range origins(v) {
+			for _, o := range originsDeep(v, deepDepth) {
 				for _, rb := range randBufs {
 					if sameVal(o, rb) {
 						return true
